@@ -391,7 +391,21 @@ def report(run, what, data, signature):
     if signature in FOREIGN_KNOWN:
         run.known_hits.append(({'signature': signature}, what))
         return False
+    if signature.startswith('crash:'):
+        # crash-freedom is C02's property: a crash listed open under any property is counted here (a deterministic exception
+        # is a value for C19: the monitor compares it like any output); an unlisted one is reported
+        listed = {k.get('signature') for k in common.load_known() if k.get('status') == 'open'}
+        if signature in listed:
+            run.known_hits.append(({'signature': signature}, what))
+            return False
     return run.fail(what, data, signature=signature)
+
+
+def crash_signature(st, o):
+    if st != 'exc':
+        return 'timeout'
+    site = (o or {}).get('site')
+    return 'crash:%s' % (tuple(site) if site else None,)
 
 
 def has_marks(doc):
@@ -1031,7 +1045,7 @@ def judge_zoom_render(run, docs, outs):
     for d, (st, o) in zip(docs, outs):
         if st != 'ok':
             report(run, 'render at several zooms raised/timed out: %s' % (str(o)[:300],), {'stream': 'zoom-render', 'doc': d},
-                   'crash:%s' % ((o or {}).get('site'),) if st == 'exc' else 'timeout')
+                   crash_signature(st, o))
             continue
         resolve_rest(o)
         base = o['fresh'][ZOOMS.index(1)]
@@ -1128,7 +1142,7 @@ def stream_copy(run, rng, n):
     for d, (st, o) in zip(docs, outs):
         if st != 'ok':
             report(run, 'render for copy raised: %s' % (str(o)[:300],), {'stream': 'copy-render', 'doc': d},
-                   'crash:%s' % ((o or {}).get('site'),) if st == 'exc' else 'timeout')
+                   crash_signature(st, o))
             continue
         if not o['original_unchanged']:
             report(run, 'writing copies changed the original Document (bytes or layout)', {'stream': 'copy-render', 'doc': d},
@@ -1140,7 +1154,7 @@ def stream_copy(run, rng, n):
             ncopies += 1
             if 'exc' in c:
                 run.fail('copy(...).write_pdf raised %s' % (c['exc'],), {'stream': 'copy-render', 'doc': d, 'sel': c['sel']},
-                         signature='crash:%s' % (c['exc']['site'],))
+                         signature=crash_signature('exc', c['exc']))
                 continue
             want = [o['full'][i] for i in c['sel']]
             # dedupe: sel may name a page twice; npages == 0 -> sel == []
@@ -1195,7 +1209,7 @@ def stream_relayout(run, rng, n):
     for c, (st, o) in zip(cases, outs):
         if st != 'ok':
             report(run, 'flex render raised: %s' % (str(o)[:300],), {'stream': 'relayout', 'case': c},
-                   'crash:%s' % ((o or {}).get('site'),) if st == 'exc' else 'timeout')
+                   crash_signature(st, o))
             continue
         if o['once']['passes'] != 1 or o['twice']['passes'] != 2:
             premise += 1
